@@ -31,7 +31,8 @@ import (
 // 14 TUN write (a = id), 15 datagram for which Bind.Send returned an error (a = 0 initiation,
 // 1 response, 2 keepalive, 3 data), 6 device down, 7 hook: keypairs a seconds older,
 // 8 hook: handshakeAttempts := a, 9 UAPI set creating the peer on a device that is up,
-// 17 hook: lastSentHandshake a seconds older,
+// 17 hook: lastSentHandshake a seconds older, 18 UAPI set of persistent_keepalive_interval := a
+// on the existing peer,
 // 20 end of observation.
 type Item struct {
 	C   int    `json:"c"`
@@ -142,6 +143,15 @@ func (s *scen) configure() {
 	s.in(9, 0, 0)
 	s.p.Configured = true
 	if err := s.w.Dev.IpcSet(cosim.PeerConfig(s.p, true)); err != nil {
+		s.err = "set: " + err.Error()
+	}
+}
+
+// setPka changes the persistent-keepalive interval of the existing peer over UAPI.
+func (s *scen) setPka(n int) {
+	s.in(18, uint64(n), 0)
+	cfg := fmt.Sprintf("public_key=%x\npersistent_keepalive_interval=%d\n", s.p.Pub[:], n)
+	if err := s.w.Dev.IpcSet(cfg); err != nil {
 		s.err = "set: " + err.Error()
 	}
 }
@@ -532,7 +542,11 @@ func run(spec Spec) Case {
 				break
 			}
 		}
-		time.Sleep(time.Duration(300+spec.Delay*3%900) * ms)
+		if spec.Pka > 0 {
+			time.Sleep(time.Duration(300+spec.Delay*3%350) * ms) // before the persistent timer's first expiry
+		} else {
+			time.Sleep(time.Duration(300+spec.Delay*3%900) * ms)
+		}
 		s.down()
 		time.Sleep(time.Duration(20+spec.Delay%150) * ms)
 		s.up()
@@ -578,13 +592,40 @@ func run(spec Spec) Case {
 		}
 		time.Sleep(40 * ms)
 		s.setAttempts(19)
-		time.Sleep(time.Until(i1.T.Add(6 * sec)))
+		time.Sleep(time.Until(i1.T.Add(6500 * ms)))
 		s.tun(1)
-		if i2 := s.waitInit(n0+2, s.since()+2*sec); i2 != nil {
+		i2 := s.waitInit(n0+2, s.since()+2*sec)
+		if i2 == nil {
+			s.err = "no initiation after new traffic"
+			time.Sleep(700 * ms)
+			break
+		}
+		if spec.Var == "again" || spec.Var == "again2" {
+			// second episode on the same peer, unanswered at first: it must be retransmitted
+			// (the attempt counter starts again), not given up at its first expiry
+			i3 := s.waitInit(n0+3, s.since()+5334*ms+700*ms)
+			if i3 == nil {
+				time.Sleep(100 * ms)
+				break
+			}
+			if spec.Var == "again2" {
+				// and a second give-up discards the second episode's packets as well
+				time.Sleep(40 * ms)
+				s.setAttempts(19)
+				time.Sleep(time.Until(i3.T.Add(6500 * ms)))
+				s.tun(1)
+				i4 := s.waitInit(n0+4, s.since()+2*sec)
+				if i4 == nil {
+					s.err = "no initiation after the second give-up"
+					break
+				}
+				i3 = i4
+			}
+			time.Sleep(20 * ms)
+			s.answer(i3)
+		} else {
 			time.Sleep(20 * ms)
 			s.answer(i2)
-		} else {
-			s.err = "no initiation after new traffic"
 		}
 		time.Sleep(700 * ms)
 
@@ -622,7 +663,16 @@ func run(spec Spec) Case {
 		switch {
 		case spec.Pka == 0:
 			s.sleepUntil(20*5334*ms + 900*ms) // 107.6 s: gave up for sure
-			if spec.Var == "tun" {
+			if spec.Var == "tun2" {
+				// second episode after the FULL give-up: retransmitted again, then answered
+				n0 := s.countInit()
+				s.tun(1)
+				if i3 := s.waitInit(n0+3, s.since()+2*5334*ms+900*ms); i3 != nil {
+					time.Sleep(20 * ms)
+					s.answer(i3)
+				}
+				time.Sleep(600 * ms)
+			} else if spec.Var == "tun" {
 				// new traffic: a new attempt; only the new packet is sent once it completes
 				n0 := s.countInit()
 				s.tun(1)
@@ -665,7 +715,15 @@ func run(spec Spec) Case {
 		s.answer(init)
 		if spec.Var == "newhs" {
 			// data was sent on completion, the peer stays silent: new handshake after 15 s + jitter
-			time.Sleep(15334*ms + 650*ms)
+			n1 := s.countInit()
+			if i2 := s.waitInit(n1+1, s.since()+15334*ms+650*ms); i2 != nil {
+				// second handshake on the same peer: answered, then traffic flows under the new key
+				time.Sleep(20 * ms)
+				s.answer(i2)
+				time.Sleep(150 * ms)
+				s.tun(per)
+				time.Sleep(500 * ms)
+			}
 		} else {
 			time.Sleep(600 * ms)
 		}
@@ -738,7 +796,14 @@ func run(spec Spec) Case {
 		}
 		t0 := time.Now()
 		iv := time.Duration(spec.Pka) * sec
-		if spec.Var == "rx" {
+		if spec.Var == "toggle" {
+			// interval switched off and on again on the same peer (second configuration change)
+			time.Sleep(time.Until(t0.Add(2*iv + iv/2)))
+			s.setPka(0)
+			time.Sleep(2*iv + iv/2) // silence (the pending timer expires without sending)
+			s.setPka(spec.N)
+			time.Sleep(2*time.Duration(spec.N)*sec + 650*ms)
+		} else if spec.Var == "rx" {
 			// after the first periodic keepalive the peer sends one: the interval restarts
 			time.Sleep(time.Until(t0.Add(iv + iv/2)))
 			s.recvKa()
@@ -969,6 +1034,8 @@ func quickSpecs(r *rand.Rand) []Spec {
 		{Kind: "retx", N: 2, Pka: 25, Delay: d()},
 		{Kind: "retx", N: 2, Pka: 1, Delay: d()},
 		{Kind: "regive", N: 5, Per: 1, Var: "session", Delay: d()},
+		{Kind: "regive", N: 2, Per: 1, Var: "again", Delay: d()},
+		{Kind: "persist", Pka: 1, N: 2, Var: "toggle", Delay: d()},
 		{Kind: "regive", N: 2 + r.Intn(5), Per: 2, Delay: d()},
 		{Kind: "fresh", N: 1, Per: 1, Delay: d()},
 		{Kind: "fresh", N: 2, Per: 2, Delay: d()},
@@ -1020,6 +1087,9 @@ func thoroughSpecs(r *rand.Rand) []Spec {
 		Spec{Kind: "giveup", N: 3, Per: 1, Delay: d()},
 		Spec{Kind: "giveup", N: 6, Per: 2, Var: "tun", Delay: d()},
 		Spec{Kind: "giveup", Per: 2, Var: "resess", Delay: d()},
+		Spec{Kind: "giveup", N: 2, Per: 1, Var: "tun2", Delay: d()},
+		Spec{Kind: "regive", N: 3, Per: 2, Var: "again2", Delay: d()},
+		Spec{Kind: "regive", N: 2, Per: 1, Var: "again2", Delay: d()},
 		Spec{Kind: "giveup", Per: 1, Delay: d()},
 		Spec{Kind: "giveup", Pka: 25, Per: 1, Delay: d()},
 		Spec{Kind: "giveup", Pka: 1, Per: 1, Delay: d()},
